@@ -24,6 +24,7 @@
 #include <string>
 #include "celma/prog_args.hpp"
 #include "celma/prog_args/detail/argument_value.hpp"
+#include "celma/prog_args/detail/storage.hpp"
 
 
 namespace celma::prog_args {
@@ -112,7 +113,7 @@ public:
 
       auto  value = std::make_shared< detail::ArgumentValue< T>>();
 
-      mValues.insert( container_t::value_type( detail::ArgumentKey( args), value));
+      mValues.addArgument( value, detail::ArgumentKey( args));
       return Handler::addArgument(
          args, new detail::TypedArg< T>( (*value)(), "unnamed"), desc);
    } // ValueHandler::addValueArgument
@@ -139,7 +140,7 @@ public:
 
       auto  value = std::make_shared< detail::ArgumentValue< T>>();
 
-      mValues.insert( container_t::value_type( detail::ArgumentKey( args), value));
+      mValues.addArgument( value, detail::ArgumentKey( args));
       detail::ContainerAdapter< T>  wrapper( (*value)());
       return Handler::addArgument(
          args, new detail::TypedArg< detail::ContainerAdapter< T>>( wrapper,
@@ -254,7 +255,7 @@ private:
    /// Type used to store the destination variables.
    using shared_value_storage_t = std::shared_ptr< common::AnyBase>;
    /// Container used to store the destination variables.
-   using container_t = std::map< detail::ArgumentKey, shared_value_storage_t>;
+   using container_t = detail::Storage< shared_value_storage_t>;
 
    /// Hidden when value handler is used.
    template< typename T>
@@ -294,7 +295,7 @@ template< typename T, typename C>
 
    auto  value = std::make_shared< detail::ArgumentValue< C>>();
 
-   mValues.insert( container_t::value_type( detail::ArgumentKey( args), value));
+   mValues.addArgument( value, detail::ArgumentKey( args));
    return Handler::addArgument(
       args,
       new detail::TypedArgRange< T, C>( common::RangeDest< T, C>( (*value)()),
@@ -321,7 +322,7 @@ template< typename T>
    if (value_iter == mValues.end())
       throw std::invalid_argument( "unknown argument '" + args + "'");
 
-   auto  type_name_access = value_iter->second.get();
+   auto  type_name_access = value_iter->data().get();
 
    if (type_name_access->getTypeNameBase()->getTypeName() != type< T>::name())
       throw std::invalid_argument( "type mismatch");
